@@ -90,6 +90,11 @@ func c20HtVersions(bcryptAlice ...bool) (versions []*c20Version, queries []strin
 		// a file without a single entry is refused by the htpasswd loader (previous contents stay)
 		mk("emptied", map[string]string{}, "# nobody\n", false),
 	}
+	// same passwords as v0, but alice's entry migrated from bcrypt to {SHA}: every query answers
+	// as under v0, so an answer that differs is a torn read of (scheme, hash)
+	useBcrypt = false
+	mig := mk("migrated", map[string]string{"alice": "pw1", "bob": "pw2"}, "", true)
+	versions = append(versions, mig)
 	return
 }
 
@@ -450,7 +455,11 @@ func c20Scenarios(quick bool, queries map[string][]string) []c20Scenario {
 			if len(cur) == L {
 				return
 			}
-			for v := 1; v <= 6; v++ {
+			nv := 6
+			if subj == "htpasswd" {
+				nv = 7 // + "migrated"
+			}
+			for v := 1; v <= nv; v++ {
 				rec(append(cur, v))
 			}
 		}
@@ -615,8 +624,13 @@ func rw(w bool) string {
 func c20Explore(c *Ctx, env *c20Env, sc c20Scenario, bound int, prune bool) {
 	var first []int
 	firstOrder := ""
-	stats := explore.Run(explore.Config{MaxCost: bound, Prune: prune, Deadline: c.Deadline}, func(x *explore.Exec, own bool) {
+	nondet := false
+	stats := explore.Run(explore.Config{MaxCost: bound, Prune: prune, Deadline: c.Deadline, TolerateDivergence: true}, func(x *explore.Exec, own bool) {
 		res := c20Exec(env, sc, x, prune)
+		if x.Diverged {
+			c.Inc("executions_whose_replayed_prefix_did_not_reproduce")
+			nondet = true
+		}
 		c.Inc("evaluations")
 		c.Inc("traces_validated_against_impl")
 		c.Add("transitions", int64(res.out.Steps))
@@ -638,6 +652,13 @@ func c20Explore(c *Ctx, env *c20Env, sc c20Scenario, bound int, prune bool) {
 		for _, v := range res.violations {
 			kv := strings.SplitN(v, "\x00", 2)
 			choices := x.Choices()
+			if x.Diverged || nondet {
+				// the implementation itself is not deterministic given the schedule (it iterates over
+				// a map, say): the observation on this real execution stands on its own
+				c.Violate(kv[0], fmt.Sprintf("%s %v/%v: %s [schedule %s; not replayable: the code under test is nondeterministic]", sc.Subject, sc.Reloaders, sc.Validators, kv[1], sched.DescribeOrder(res.out.Order)),
+					len(choices)*100+res.out.Switches, c20Replay{Scenario: sc, Choices: choices, Order: sched.DescribeOrder(res.out.Order), What: kv[1]})
+				continue
+			}
 			c.confirm(kv[0], fmt.Sprintf("%s %v/%v: %s [schedule %s]", sc.Subject, sc.Reloaders, sc.Validators, kv[1], sched.DescribeOrder(res.out.Order)),
 				len(choices)*100+res.out.Switches,
 				c20Replay{Scenario: sc, Choices: choices, Order: sched.DescribeOrder(res.out.Order), What: kv[1]},
@@ -662,7 +683,11 @@ func c20Explore(c *Ctx, env *c20Env, sc c20Scenario, bound int, prune bool) {
 		for i := 0; i < 2; i++ {
 			r := c20Exec(env, sc, explore.Replay(first, nil), false)
 			if o := sched.DescribeOrder(r.out.Order); o != firstOrder {
-				c.Error("replay divergence in %v: order %s vs %s (aborted=%q panics=%v blocked=%v)", sc, firstOrder, o, r.out.Aborted, r.out.Panics, r.out.Blocked)
+				// counted, reported and made visible as exhaustive=false; the post hook turns it into
+				// a harness error when no violation explains it
+				c.Inc("first_execution_replays_that_diverged")
+				c.Exhaustive = false
+				c.Note("replay divergence in %v: order %s vs %s (aborted=%q)", sc, firstOrder, o, r.out.Aborted)
 			}
 		}
 	}
@@ -716,6 +741,16 @@ func init() {
 			}
 			if c.Counters["executions_with_interleaving"] == 0 && c.Counters["complete_executions"] > 0 {
 				c.Error("vacuous: no execution interleaved threads")
+			}
+		},
+		post: nil,
+		finish: func(c *Ctx) {
+			// prefixes that do not reproduce mean the code under test (or the harness) is not
+			// deterministic given the schedule. With violations on the table they are explained by
+			// the change under test; without any they are a harness problem and must not pass silently
+			n := c.Counters["executions_whose_replayed_prefix_did_not_reproduce"] + c.Counters["first_execution_replays_that_diverged"]
+			if n > 0 && len(c.Violations) == 0 {
+				c.Error("NONDETERMINISM: %d executions did not reproduce their replayed prefix and no violation was found", n)
 			}
 		},
 		replay: func(c *Ctx, raw json.RawMessage) string {
